@@ -73,6 +73,11 @@ def run(ctx):
     elif starts:
         r4.ok(construct, f"{len(starts)} abstract start state(s), all with the core held", fi.where)
 
+    # R6 a released core corresponds to a dead process group (composition with the C13 kill-sequence rule)
+    r6 = ctx.rule("R6", "the kill sequence that precedes the release ends every process of the task (group SIGKILL, reaped)", min_instances=3)
+    from .shared import import_rules
+    import_rules(ctx, r6, "C13", only={"R6"})
+
     # R5 semaphore size = configured worker count
     r5 = ctx.rule("R5", "the semaphore is sized by the --num-workers value", min_instances=4)
     info = scheduler_info(ctx)
